@@ -4,6 +4,7 @@ the bridge between the value list the macro computes and the meaning of the decl
 -/
 import EnumToolsModel.Lemmas.ParseValues
 import EnumToolsModel.Lemmas.WF
+import EnumToolsModel.Macro
 namespace ET
 
 theorem parseFeatures_errs_prefix : ∀ (specs : List FeatSpec) (fs : Features) (fm : FeatureMap) (errs : List Err),
